@@ -468,6 +468,11 @@ _GROWTH_CASES = {
     "piecewise exponential,growth=[0,-0.7,0.2]": ("pexp", [0.0, 0.5, 0.0, 0.0], [1.0, 2.0, 3.5], 3.0, [0.0, -0.7, 0.2], [1.5, 2.5]),
     "piecewise exponential,growth=[1e-10,0.3]": ("pexp", [0.0, 0.0, 0.0], [1.0, 2.0], 3.0, [1e-10, 0.3], [1.5]),
     "piecewise exponential,growth=[0.4,-0.2]": ("pexp", [0.0, 0.0, 0.0], [1.0, 2.0], 3.0, [0.4, -0.2], [1.5]),
+    # piecewise linear: neighbouring knots almost equal (the other removable 0/0: (log b - log a)/(b - a))
+    "piecewise linear,knots one ulp apart": ("plin", [0.0, 0.0, 0.0], [1.0, 2.0], [1000.0, 1000.0000000000001, 1000.0], None, [1.5, 3.0]),
+    "piecewise linear,knots 1e-9 apart": ("plin", [0.0, 0.5, 0.0], [1.0, 2.0], [3.0, 3.000000003, 2.999999999], None, [1.5, 3.0]),
+    "piecewise linear,knots equal": ("plin", [0.0, 0.0, 0.0], [1.0, 2.0], [3.0, 3.0, 3.0], None, [1.5, 3.0]),
+    "piecewise linear,knots apart": ("plin", [0.0, 0.0, 0.0], [1.0, 2.0], [3.0, 5.0, 2.0], None, [1.5, 3.0]),
 }
 
 
@@ -479,6 +484,8 @@ def _growth_case(label):
     M = mpmath.mpf
     if model == "exp":
         demo = kingman.Exponential(M(theta), M(growth[0]))
+    elif model == "plin":
+        demo = kingman.GridLinear([M(x) for x in theta], [M(g) for g in grid])
     else:
         demo = kingman.GridExponential(M(theta), [M(g) for g in growth], [M(g) for g in grid])
     want = float(kingman.log_density([M(t) for t in tips], [M(t) for t in internal], demo))
@@ -487,6 +494,8 @@ def _growth_case(label):
     try:
         if model == "exp":
             got = co.ExponentialCoalescent(t64([theta]), t64(growth)).log_prob(nh)
+        elif model == "plin":
+            got = co.PiecewiseLinearCoalescentGrid(t64(theta), t64(grid)).log_prob(nh)
         else:
             got = co.PiecewiseExponentialCoalescentGrid(t64([theta]), t64(growth), t64(grid)).log_prob(nh)
         got = float(got.reshape(-1)[0])
